@@ -67,7 +67,8 @@ TRUSTED_COMMON = [
     "time has been read (and during purges / flagged browser creations) it advances 1 ms per reading; sub-millisecond float behaviour "
     "is not exercised (a non-integral lifetime in the cache is rendered exactly and so differs from the model and the reference)",
     "harness/cachecommon.py `Ref`: my flat reading of RFC 6762 section 10 and of the C06 sentence (the oracle of stage O)",
-    "str.lower() is ASCII lowering in the driver; the vocabularies are ASCII plus one non-ASCII letter that str.lower() does not change (ß)",
+    "str.lower() is ASCII + Latin-1 lowering in the driver (Driver/C05.lean lowerD); the vocabularies are ASCII plus ß (unchanged by "
+    "str.lower) and É/é (folded by it)",
 ]
 
 # ------------------------------------------------------------------------------------------
@@ -225,10 +226,22 @@ def ident_str(i):
     return "%s/%s/%d/%d/%s" % (i[0], i[1], i[2], i[3], "/".join(str(x) for x in i[4]))
 
 
-def packet_of(objs):
+def op_opts(op):
+    """optional 5th element of a D / W op: {"sec": [0|1|2 per record: answer / authority / additional section; non-decreasing, so that the
+    record list is in wire order], "src6": 1 (W: the datagram comes from an IPv6 source, i.e. a 4-tuple address)}"""
+    return op[4] if len(op) > 4 and isinstance(op[4], dict) else {}
+
+
+def packet_of(objs, sec=None):
     out = DNSOutgoing(K._FLAGS_QR_RESPONSE | K._FLAGS_AA)
-    for r in objs:
-        out.add_answer_at_time(r, 0)
+    for k, r in enumerate(objs):
+        s = sec[k] if sec else 0
+        if s == 0:
+            out.add_answer_at_time(r, 0)
+        elif s == 1:
+            out.add_authorative_answer(r)
+        else:
+            out.add_additional_answer(r)
     pk = out.packets()
     if len(pk) != 1:
         raise HarnessError("datagram of %d records does not fit one packet" % len(objs))
@@ -609,6 +622,13 @@ class World:
         for k, pl in enumerate(self.plans):
             if pl[0] == bid and pl[1] == change and pl[2].lower() == name.lower():
                 del self.plans[k]
+                if pl[3] == -1:
+                    # the handler cancels its own browser (the real _async_cancel), in the middle of the batch being fired
+                    self.log.append(("k", bid, None, [bid], None, self.depth))
+                    b = self.browsers.pop(bid, None)
+                    if b is not None:
+                        b._async_cancel()
+                    return
                 # the one clock reading the creation's async_add_listener is about to make (the clock ticks per reading during D, W and
                 # X ops once the op's first instant has been read)
                 reading = None if _CLOCK[0] is None else int(_CLOCK[0] + (_TICKING[0] or 0))
@@ -678,7 +698,8 @@ class World:
                 now = op[1]
                 _CLOCK[0] = float(now)
                 objs = [mk_record(s, now) for s in op[2]]
-                pkt = packet_of(objs)
+                opts = op_opts(op)
+                pkt = packet_of(objs, opts.get("sec"))
                 # decoded while the wall clock shows another instant than the arrival time handed to the decoder: a decoder that stamps
                 # records from the clock instead of from `now` is seen (as a lifetime that differs from the arrival time)
                 _TICKING[0] = 7
@@ -702,7 +723,8 @@ class World:
                         # the bytes through the real listener: its first reading of the clock is the arrival time, every later
                         # reading during the same event is later
                         _TICKING[0] = 0
-                        self.alistener.datagram_received(pkt, ("10.0.0.9", 5353))
+                        # (an IPv6 socket hands a 4-tuple: address, port, flow, scope)
+                        self.alistener.datagram_received(pkt, ("fe80::9", 5353, 0, 0) if opts.get("src6") else ("10.0.0.9", 5353))
                 finally:
                     self.reacts = []
                     obs["ticks"] = _TICKING[0]      # the last clock reading of the op was now + ticks - 1 (as for X ops)
@@ -821,6 +843,8 @@ def render_nest(obs):
                 out.append("Q%d:%d>%d@%d" % (depth, lid, x[3], t))
         elif kind == "b":
             out.append("B%d:%d>%d" % (depth, x[0], x[1]))
+        elif kind == "k":
+            out.append("K%d:%d" % (depth, x[0]))
         elif depth >= 1:
             if kind == "u":
                 if lid is None:
@@ -891,12 +915,12 @@ def first_diff(impl, model):
 _PAYLOAD = {}
 
 
-def payload_of(recs):
-    """the bytes of the datagram a record list denotes (what the duplicate guard compares); memoised"""
-    key = repr(recs)
+def payload_of(recs, sec=None):
+    """the bytes of the datagram a record list (+ section assignment) denotes (what the duplicate guard compares); memoised"""
+    key = repr((recs, sec or None))
     v = _PAYLOAD.get(key)
     if v is None:
-        v = packet_of([mk_record(s, T0) for s in recs])
+        v = packet_of([mk_record(s, T0) for s in recs], sec)
         if len(_PAYLOAD) < 50000:
             _PAYLOAD[key] = v
     return v
@@ -912,11 +936,11 @@ class WireRef:
         self.data = None
         self.t = None
 
-    def expects(self, now, recs):
-        return not (self.data is not None and self.data == payload_of(recs) and now - self.t < 1000)
+    def expects(self, now, recs, sec=None):
+        return not (self.data is not None and self.data == payload_of(recs, sec) and now - self.t < 1000)
 
-    def processed(self, now, recs):
-        self.data, self.t = payload_of(recs), now
+    def processed(self, now, recs, sec=None):
+        self.data, self.t = payload_of(recs, sec), now
 
 
 def build_line(probes, ops):
@@ -934,7 +958,7 @@ def build_line(probes, ops):
             t += [k, str(op[1])]
             if k == "W":
                 # equal numbers <=> equal bytes
-                t.append(str(pids.setdefault(payload_of(op[2]), len(pids))))
+                t.append(str(pids.setdefault(payload_of(op[2], op_opts(op).get("sec")), len(pids))))
             t += [str(len(op[2]))] + [spec_line(r, op[1]) for r in op[2]]
             t.append(str(len(op[3])))
             for r in op[3]:
@@ -1208,6 +1232,16 @@ def parse_snapshot(s):
 # shrinking
 
 
+def _drop_sec(op, j):
+    o = op_opts(op)
+    if not o:
+        return []
+    o = dict(o)
+    if o.get("sec"):
+        o["sec"] = o["sec"][:j] + o["sec"][j + 1:]
+    return [o]
+
+
 def shrink(ops, still_fails, max_evals=250):
     """greedy delta-debugging over the op list, then over records / reactions inside datagrams"""
     evals = [0]
@@ -1240,13 +1274,13 @@ def shrink(ops, still_fails, max_evals=250):
         while j >= 0:
             if len(cur[i][2]) > 1:
                 cand = [list(o) for o in cur]
-                cand[i] = [cur[i][0], cur[i][1], cur[i][2][:j] + cur[i][2][j + 1:], cur[i][3]]
+                cand[i] = [cur[i][0], cur[i][1], cur[i][2][:j] + cur[i][2][j + 1:], cur[i][3]] + _drop_sec(cur[i], j)
                 if ok(cand):
                     cur = cand
             j -= 1
         if cur[i][3]:
             cand = [list(o) for o in cur]
-            cand[i] = [cur[i][0], cur[i][1], cur[i][2], []]
+            cand[i] = [cur[i][0], cur[i][1], cur[i][2], []] + list(cur[i][4:])
             if ok(cand):
                 cur = cand
         j = len(cur[i][3]) - 1
@@ -1297,6 +1331,15 @@ VOCAB = [
     ["a", "Fußboden.local.", 1, IN, "0a000005"],
     ["a", "FUßBODEN.LOCAL.", 1, IN, "0a000005"],     # same identity
     ["a", "fußboden.local.", 1, IN, "0a000006"],     # its sibling (cache-flush victim / flusher)
+    # the same owner name and type in ANOTHER class: "same name, type and class ... and only those" -- a flush of the class-IN rrset
+    # must leave them alone, lookups by name/type/class must tell them apart
+    ["a", "h.local.", 1, 3, "0a000001"],
+    ["a", "H.local.", 1, 3, "0a000002"],
+    ["t", "a._x._tcp.local.", 16, 3, "03613d31"],
+    # a cased non-ASCII letter: str.lower() folds it (É -> é), ASCII-only folding does not; the driver's `lower` folds Latin-1 too
+    ["a", "Émile.local.", 1, IN, "0a000007"],
+    ["a", "émile.LOCAL.", 1, IN, "0a000007"],        # same identity
+    ["a", "ÉMILE.local.", 1, IN, "0a000008"],        # its sibling
 ]
 RARE = {14, 15}
 TTLS = [0, 1, 2, 120, 1124, 1125, 4500]
@@ -1370,8 +1413,35 @@ def pick_step(rng, ref, now):
     return rng.choice(STEPS)
 
 
+def gen_wire_opts(rng, recs, allow6=False):
+    """how the records travel: which section each one is in (real announcements carry SRV/TXT/A as *additionals* of the PTR answer;
+    `msg.answers()` is answers + authorities + additionals, in that order -- the assignment is non-decreasing so that the record list stays
+    in wire order) and, for W ops, whether the datagram arrives on an IPv6 socket (4-tuple source address; not with AAAA records, whose
+    scope id the decoder takes from the source).  Returns the op's 5th element as a list ([] or [dict]).  A datagram that does not fit
+    one packet is cut down."""
+    while len(recs) > 5:
+        try:
+            payload_of(recs)
+            break
+        except HarnessError:
+            del recs[len(recs) // 2:]
+    o = {}
+    x = rng.random()
+    if x < 0.25:
+        o["sec"] = [0] + [2] * (len(recs) - 1)              # one answer, the rest additionals (an announcement)
+    elif x < 0.55:
+        o["sec"] = sorted(rng.choice([0, 0, 1, 2, 2]) for _ in recs)
+    if o.get("sec") and not any(o["sec"]):
+        del o["sec"]
+    if allow6 and rng.random() < 0.3 and not any(r[2] == 28 for r in recs):
+        o["src6"] = 1
+    return [o] if o else []
+
+
 def gen_datagram(rng, vocab, ref, opts):
     n = rng.choice([1, 1, 2, 2, 3, 4, 5])
+    if rng.random() < 0.06:
+        n = rng.choice([12, 25, 40])
     recs = []
     cached_tpls = None
     for _ in range(n):
@@ -1481,7 +1551,7 @@ def gen_history(rng, depth, opts):
     ops = []
     registered = set()
     wire = WireRef() if opts.get("wire") else None
-    last_recs = None
+    last_recs, last_extra = None, []
     for lid in pool[: opts.get("initial_listeners", 0)]:
         ops.append(["LA", lid])
         registered.add(lid)
@@ -1490,9 +1560,10 @@ def gen_history(rng, depth, opts):
             # the same bytes again (a re-announcement / a link-layer duplicate), at a gap around the listener's 1 s guard
             now += rng.choice(WIRE_GAPS)
             reacts = gen_reacts(rng, registered, pool, 0.0) if pool and opts.get("reacts") else []
-            ops.append(["W", now, [list(r) for r in last_recs], reacts])
-            if wire.expects(now, last_recs):
-                wire.processed(now, last_recs)
+            ops.append(["W", now, [list(r) for r in last_recs], reacts] + [dict(x) for x in last_extra])
+            lsec = (last_extra[0].get("sec") if last_extra else None)
+            if wire.expects(now, last_recs, lsec):
+                wire.processed(now, last_recs, lsec)
                 ref.datagram(now, last_recs)
             continue
         now += pick_step(rng, ref, now)
@@ -1519,13 +1590,15 @@ def gen_history(rng, depth, opts):
             recs = gen_datagram(rng, vocab, ref, opts)
             reacts = gen_reacts(rng, registered, pool, opts.get("p_remove_absent", 0.0), opts.get("p_question", 0.0)) if pool and opts.get("reacts") else []
             if wire is not None:
-                ops.append(["W", now, recs, reacts])
-                last_recs = recs
-                if wire.expects(now, recs):
-                    wire.processed(now, recs)
+                extra = gen_wire_opts(rng, recs, allow6=True)
+                ops.append(["W", now, recs, reacts] + extra)
+                last_recs, last_extra = recs, extra
+                sec = extra[0].get("sec") if extra else None
+                if wire.expects(now, recs, sec):
+                    wire.processed(now, recs, sec)
                     ref.datagram(now, recs)
                 continue
-            ops.append(["D", now, recs, reacts])
+            ops.append(["D", now, recs, reacts] + gen_wire_opts(rng, recs))
             ref.datagram(now, recs)
             # the steering copy of the listener set is approximate (reactions are not tracked); that is fine
     return ops
